@@ -412,10 +412,70 @@ func (x *Exec) load(st *State, fr *Frame, p *Place, in ssa.Instruction) Val {
 	case pkElem:
 		name, srt := x.arrName(p.Base)
 		s := app("select", app("select", x.getArr(st, name, srt), p.Ref), p.Idx)
+		if v, ok := foldElemRead(st, x.getArr(st, name, srt), p.Ref, p.Idx); ok {
+			s = v // element of a local array read back at a constant index: the value last stored there
+		}
 		s, T := x.project(s, p.Base, p.Path)
 		return x.typed(st, x.define(st, "ld", x.sortOf(T), s), T)
 	}
 	return nil
+}
+
+// foldElemRead resolves (select (select ARR ref) idx) for a numeral idx when ARR is defined, by a chain
+// of define-funs, as stores into row `ref` at numeral indices (the shape local arrays take): it returns
+// the value last stored at idx. Purely syntactic and only applied when every step is unambiguous.
+func foldElemRead(st *State, arr, ref, idx string) (string, bool) {
+	if !isNumeral(idx) {
+		return "", false
+	}
+	lookup := func(name string) string {
+		pre := "(define-fun " + name + " () "
+		for d := st.defs; d != nil; d = d.prev {
+			if strings.HasPrefix(d.line, pre) {
+				rest := d.line[len(pre):]
+				// skip the sort (balanced)
+				depth, k := 0, 0
+				for k = 0; k < len(rest); k++ {
+					if rest[k] == '(' {
+						depth++
+					} else if rest[k] == ')' {
+						depth--
+					} else if rest[k] == ' ' && depth == 0 {
+						break
+					}
+				}
+				return strings.TrimSuffix(strings.TrimSpace(rest[k:]), ")")
+			}
+		}
+		return ""
+	}
+	for step := 0; step < 8; step++ {
+		def := lookup(arr)
+		args, ok := sexprArgs(def)
+		if def == "" || !ok || len(args) != 4 || args[0] != "store" || args[2] != ref {
+			return "", false
+		}
+		row := args[3]
+		for k := 0; k < 8; k++ {
+			ra, ok := sexprArgs(row)
+			if !ok || len(ra) == 0 {
+				return "", false
+			}
+			if ra[0] == "store" && len(ra) == 4 && isNumeral(ra[2]) {
+				if ra[2] == idx {
+					return ra[3], true
+				}
+				row = ra[1]
+				continue
+			}
+			if ra[0] == "select" && len(ra) == 3 && ra[2] == ref {
+				arr = ra[1] // the row as it was in an earlier version of the array
+				break
+			}
+			return "", false
+		}
+	}
+	return "", false
 }
 
 // typed wraps a loaded term and adds the type invariants of its Go type as assumptions.
@@ -565,7 +625,11 @@ func (x *Exec) oblige(st *State, fr *Frame, kind, tag string, in interface{}, id
 		return // evaluating a side-effect free function as a term: obligations are generated elsewhere
 	}
 	if x.partialMode && kind != "ensures" && kind != "assert@call" {
-		if !(x.partialLoops && (strings.Contains(kind, "/invariant") || strings.HasSuffix(kind, "/decreases") || kind == "frame")) {
+		loopKind := strings.Contains(kind, "/invariant") || strings.HasSuffix(kind, "/decreases") || kind == "frame"
+		// run-time safety is claimed for the loop-free prefix of every path of the function itself: before
+		// the first loop the symbolic state is exact, behind it (invariants unchecked) it is not
+		prefixSafety := !x.partialLoops && !st.looped && fr != nil && fr.fn == x.curTop && safetyKinds[kind]
+		if !(x.partialLoops && loopKind) && !prefixSafety {
 			return // `partial` contract: only the listed ensures / asserts are claimed for this function
 		}
 	}
@@ -767,6 +831,10 @@ func (x *Exec) safety(st *State, fr *Frame, kind string, in ssa.Instruction, idx
 	if !x.safetyOn {
 		return
 	}
+	if fr != nil && fr.contract != nil && fr.contract.Safety == "no-overflow" && kind == "overflow" {
+		x.trusted["machine arithmetic treated as mathematical in "+funcFull(fr.fn)+" (integer overflow obligations switched off by its contract)"] = true
+		return
+	}
 	if fr != nil && fr.contract != nil && fr.contract.Safety == "off" {
 		x.note("safety obligations switched off by contract for " + funcFull(fr.fn))
 		return
@@ -872,3 +940,7 @@ func (x *Exec) contractFor(fn *ssa.Function) *FuncContract {
 	}
 	return nil
 }
+
+// obligation kinds that guard against a run-time panic
+var safetyKinds = map[string]bool{"index": true, "slice-bounds": true, "nil-deref": true, "div-zero": true, "nil-map": true,
+	"type-assert": true, "nil-func": true, "heap-pop-empty": true, "makeslice": true}
